@@ -12,6 +12,9 @@
 // PoolList / PoolMap hold non-copyable types (deleted copy operations) that remember their own address: exactly one construction per append, at
 // the address handed out, no construction or destruction of a stored object by any other operation.
 // List::sort is not part of the histories: it exchanges values between nodes and is neither an insertion nor a removal.
+// Mode reentrant: the same ledger over element types whose destructor (all seven containers) or copy constructor (HashMap, HashSet) performs, when
+// armed by the harness for exactly one library call, one nested operation on the container the element is being removed from / stored in (see the
+// section "re-entrant elements" for what is exercised and what the unchanged library does not support).
 // Every verdict uses the public API only. The single use of private library state (inside #ifndef VERIF_NO_PRIVATE; needs -fno-access-control) is
 // evidence without verdict: counters block_allocations / free_slot_reuses / root_changes. With -DVERIF_NO_PRIVATE these three counters are absent.
 #include "vh.hpp"
@@ -61,6 +64,65 @@ struct NCV {
 };
 long NCV::made = 0, NCV::gone = 0;
 
+
+// ------------------------------------------------------------------------------------------------ re-entrant elements (mode reentrant)
+// Client code of these containers stores objects that call back into the container from their own destructor (a connection that queues its
+// successor, a handler that unregisters another one) and - less often - from their copy constructor (an object that registers a companion entry
+// when it is stored). The harness arms exactly one such callback for exactly one library call; the element that consumes the arm performs one
+// nested operation on the container it lives in. The element the nested operation stores is a stored element like any other: it must get storage
+// that is not in use (in particular not the storage of the element whose destructor / constructor is still running) and keep it.
+// What the unchanged library supports (read off the code, so only this is exercised):
+//   * destructor of the entry being removed by remove(iterator) / remove(key) / remove(value) / removeFront / removeBack, all seven containers: the
+//     node is unlinked before and released after the destructor, so the destructor may insert a new entry (also with the key being removed) or
+//     remove another entry. The iterator such a removal returns was read off before the destructor ran: not checked.
+//   * copy constructor of the key/value being stored by HashMap::insert / HashSet::insert: the node is taken off the free list before the element
+//     is constructed, so the constructor may insert another key.
+// Not promised, never armed: constructors in List, Map, MultiMap, PoolMap, PoolList (these construct the element in the head node of the free list
+// and take it off afterwards: a nested insertion gets the same node), destructors run by clear() / container destruction / assignment (these walk
+// the node chain while destroying), nested removal of the position argument, nested operations on an entry that is itself being removed.
+enum { ARM_NONE = 0, ARM_COPY = 1, ARM_DTOR = 2 };
+struct Hook { int kind, countdown; void (*fn)(void*); void* arg; const char* lo; const char* hi; bool dying, fired; };
+static Hook g_hook = { ARM_NONE, 0, 0, 0, 0, 0, false, false };
+static const char* g_entryLo = 0; static const char* g_entryHi = 0;   // extent of the entry being removed (from the ledger), when the caller knows it
+static void arm(int kind, int countdown, void (*fn)(void*), void* arg, const void* lo = 0, const void* hi = 0) { g_hook.kind = kind; g_hook.countdown = countdown; g_hook.fn = fn; g_hook.arg = arg; g_hook.lo = g_hook.hi = 0; g_hook.fired = false; g_entryLo = (const char*)lo; g_entryHi = (const char*)hi; }
+static bool disarm() { g_hook.kind = ARM_NONE; return g_hook.fired; }
+// called from the copy constructor / destructor of a re-entrant element: the countdown-th such call while armed performs the nested operation
+static void fire(int kind, const void* obj, size_t size) {
+  if (g_hook.kind != kind || --g_hook.countdown > 0) return;
+  g_hook.kind = ARM_NONE; g_hook.fired = true; g_hook.dying = kind == ARM_DTOR; g_hook.lo = (const char*)obj; g_hook.hi = (const char*)obj + size;
+  if (g_entryLo && g_entryLo <= g_hook.lo && g_hook.hi <= g_entryHi) { g_hook.lo = g_entryLo; g_hook.hi = g_entryHi; }   // the whole dying entry (key and value), not only the member whose destructor runs
+  g_hook.fn(g_hook.arg);
+  g_hook.lo = g_hook.hi = 0;
+}
+// first member of every re-entrant element: nothing may be constructed inside the object whose constructor / destructor is performing the nested operation
+struct Guard {
+  void check() const { const char* p = (const char*)this; if (g_hook.lo && p >= g_hook.lo && p < g_hook.hi)
+    fail(keyOf(g_hook.dying ? "constructed-inside-element-being-destroyed" : "constructed-inside-element-being-constructed"),
+         "the nested operation constructed an element at %p, inside the element [%p,%p) whose %s is still running", (const void*)p, (const void*)g_hook.lo, (const void*)g_hook.hi, g_hook.dying ? "destructor" : "copy constructor"); }
+  Guard() { check(); } Guard(const Guard&) { check(); } Guard& operator=(const Guard&) { return *this; }
+};
+// copyable: element of List, HashSet; key and value of Map, MultiMap, HashMap; key of PoolMap. The tracked member is destroyed after the destructor body.
+struct RE {
+  Guard g; Elem e;
+  RE() : e(0) {}
+  RE(long id) : e(id) {}
+  RE(const RE& o) : g(), e(o.e) { fire(ARM_COPY, this, sizeof *this); }
+  ~RE() { fire(ARM_DTOR, this, sizeof *this); }
+  RE& operator=(const RE& o) { e = o.e; return *this; }
+  bool operator==(const RE& o) const { return e == o.e; } bool operator!=(const RE& o) const { return e != o.e; }
+  bool operator<(const RE& o) const { return e < o.e; } bool operator>(const RE& o) const { return e > o.e; }
+  bool operator<=(const RE& o) const { return e <= o.e; } bool operator>=(const RE& o) const { return e >= o.e; }
+};
+inline unsigned long hash(const RE& x) { return vh::hash(x.e); }
+// non-copyable element of PoolList (one constructor argument) and value of PoolMap (default constructed): remember where they were constructed
+struct RNC {
+  Guard g; Elem e; RNC* self;
+  RNC() : e(0), self(this) {}
+  RNC(long id) : e(id), self(this) {}
+  ~RNC() { fire(ARM_DTOR, this, sizeof *this); }
+  RNC(const RNC&) = delete; RNC& operator=(const RNC&) = delete;
+};
+
 // ------------------------------------------------------------------------------------------------ traits
 enum Order { SEQ, SORTED, MULTI, HASHED };
 struct TList { typedef List<Elem> C; typedef C::Iterator It; enum { ORDER = SEQ, HASVAL = 0, POOL = 0, SWAP = 1, TREE = 0 }; static const char* name() { return "List"; }
@@ -87,15 +149,74 @@ struct TPoolMap { typedef PoolMap<Elem, NCV> C; typedef C::Iterator It; enum { O
   static void self(It& it) { if ((*it).self != &*it) fail(keyOf("relocated"), "PoolMap value at %p was constructed at %p", (void*)&*it, (void*)(*it).self); }
   static C* create(Rng& r) { return r.chance(1, 3) ? new C : new C((usize)r.range(1, 40)); } };
 
+// traits of mode reentrant. PARTS: re-entrant members of one entry (which of their destructors performs the nested operation is drawn per case);
+// COPIES: copy constructions per insertion that may perform a nested insertion (0: not supported by the unchanged library); HOWS: removal entry points
+#define R_COMMON(NAME) static const char* name() { return NAME; } static const char* how(int h) { static const char* const n[] = { "remove(iterator)", HOW1, "removeFront", "removeBack", "remove(value)" }; return n[h]; }
+#define HOW1 "remove(value)"
+struct TListR { typedef RE KT; typedef RE VT; typedef List<RE> C; typedef C::Iterator It; enum { ORDER = SEQ, HASVAL = 0, POOL = 0, SWAP = 1, TREE = 0, FIND = 1, PARTS = 1, COPIES = 0, HOWS = 4 }; R_COMMON("List")
+  static const void* ka(It& it) { return &*it; } static const void* va(It&) { return 0; } static long kid(It& it) { return rd((*it).e); } static long vid(It&) { return 0; } static void self(It&) {}
+  static C* create(Rng&) { return new C; } static It find(C& c, long k) { return c.find(RE(k)); }
+  static It add(C& c, const It& at, long k, long) { return c.insert(at, RE(k)); }
+  static void del(C& c, const It& it, int h, long k) { if (h == 0) c.remove(it); else if (h == 1) c.remove(RE(k)); else if (h == 2) c.removeFront(); else c.removeBack(); } };
+struct TPoolListR { typedef RNC KT; typedef RNC VT; typedef PoolList<RNC> C; typedef C::Iterator It; enum { ORDER = SEQ, HASVAL = 0, POOL = 1, SWAP = 1, TREE = 0, FIND = 0, PARTS = 1, COPIES = 0, HOWS = 4 }; R_COMMON("PoolList")
+  static const void* ka(It& it) { return &*it; } static const void* va(It&) { return 0; } static long kid(It& it) { return rd((*it).e); } static long vid(It&) { return 0; }
+  static void self(It& it) { if ((*it).self != &*it) fail(keyOf("relocated"), "PoolList element at %p was constructed at %p", (void*)&*it, (void*)(*it).self); }
+  static C* create(Rng&) { return new C; } static It find(C& c, long) { return c.end(); }
+  static It add(C& c, const It&, long k, long) { RNC& x = c.append(k); It it = c.end(); --it; if (&*it != &x) fail(keyOf("returned"), "append returned a reference that is not the last element"); return it; }
+  static void del(C& c, const It& it, int h, long) { if (h == 0) c.remove(it); else if (h == 1) { It x = it; c.remove(*x); } else if (h == 2) c.removeFront(); else c.removeBack(); } };
+#undef HOW1
+#define HOW1 "remove(key)"
+struct TMapR { typedef RE KT; typedef RE VT; typedef Map<RE, RE> C; typedef C::Iterator It; enum { ORDER = SORTED, HASVAL = 1, POOL = 0, SWAP = 0, TREE = 1, FIND = 1, PARTS = 2, COPIES = 0, HOWS = 4 }; R_COMMON("Map")
+  static const void* ka(It& it) { return &it.key(); } static const void* va(It& it) { return &*it; } static long kid(It& it) { return rd(it.key().e); } static long vid(It& it) { return rd((*it).e); } static void self(It&) {}
+  static C* create(Rng&) { return new C; } static It find(C& c, long k) { return c.find(RE(k)); }
+  static It add(C& c, const It&, long k, long v) { return c.insert(RE(k), RE(v)); }
+  static void del(C& c, const It& it, int h, long k) { if (h == 0) c.remove(it); else if (h == 1) c.remove(RE(k)); else if (h == 2) c.removeFront(); else c.removeBack(); } };
+struct TMultiMapR { typedef RE KT; typedef RE VT; typedef MultiMap<RE, RE> C; typedef C::Iterator It; enum { ORDER = MULTI, HASVAL = 1, POOL = 0, SWAP = 0, TREE = 1, FIND = 1, PARTS = 2, COPIES = 0, HOWS = 4 }; R_COMMON("MultiMap")
+  static const void* ka(It& it) { return &it.key(); } static const void* va(It& it) { return &*it; } static long kid(It& it) { return rd(it.key().e); } static long vid(It& it) { return rd((*it).e); } static void self(It&) {}
+  static C* create(Rng&) { return new C; } static It find(C& c, long k) { return c.find(RE(k)); }
+  static It add(C& c, const It&, long k, long v) { return c.insert(RE(k), RE(v)); }
+  static void del(C& c, const It& it, int h, long) { if (h == 0 || h == 1) c.remove(it); else if (h == 2) c.removeFront(); else c.removeBack(); } };   // remove(key) may take any entry of a run of equal keys: not used here
+struct THashMapR { typedef RE KT; typedef RE VT; typedef HashMap<RE, RE> C; typedef C::Iterator It; enum { ORDER = HASHED, HASVAL = 1, POOL = 0, SWAP = 1, TREE = 0, FIND = 1, PARTS = 2, COPIES = 2, HOWS = 4 }; R_COMMON("HashMap")
+  static const void* ka(It& it) { return &it.key(); } static const void* va(It& it) { return &*it; } static long kid(It& it) { return rd(it.key().e); } static long vid(It& it) { return rd((*it).e); } static void self(It&) {}
+  static C* create(Rng& r) { return r.chance(1, 3) ? new C : new C((usize)r.range(1, 40)); } static It find(C& c, long k) { return c.find(RE(k)); }
+  static It add(C& c, const It& at, long k, long v) { return c.insert(at, RE(k), RE(v)); }
+  static void del(C& c, const It& it, int h, long k) { if (h == 0) c.remove(it); else if (h == 1) c.remove(RE(k)); else if (h == 2) c.removeFront(); else c.removeBack(); } };
+struct THashSetR { typedef RE KT; typedef RE VT; typedef HashSet<RE> C; typedef C::Iterator It; enum { ORDER = HASHED, HASVAL = 0, POOL = 0, SWAP = 1, TREE = 0, FIND = 1, PARTS = 1, COPIES = 1, HOWS = 4 }; R_COMMON("HashSet")
+  static const void* ka(It& it) { return &*it; } static const void* va(It&) { return 0; } static long kid(It& it) { return rd((*it).e); } static long vid(It&) { return 0; } static void self(It&) {}
+  static C* create(Rng& r) { return r.chance(1, 3) ? new C : new C((usize)r.range(1, 40)); } static It find(C& c, long k) { return c.find(RE(k)); }
+  static It add(C& c, const It& at, long k, long) { return c.insert(at, RE(k)); }
+  static void del(C& c, const It& it, int h, long k) { if (h == 0) c.remove(it); else if (h == 1) c.remove(RE(k)); else if (h == 2) c.removeFront(); else c.removeBack(); } };
+struct TPoolMapR { typedef RE KT; typedef RNC VT; typedef PoolMap<RE, RNC> C; typedef C::Iterator It; enum { ORDER = HASHED, HASVAL = 1, POOL = 1, SWAP = 1, TREE = 0, FIND = 1, PARTS = 2, COPIES = 0, HOWS = 5 }; R_COMMON("PoolMap")
+  static const void* ka(It& it) { return &it.key(); } static const void* va(It& it) { return &*it; } static long kid(It& it) { return rd(it.key().e); } static long vid(It& it) { return rd((*it).e); }
+  static void self(It& it) { if ((*it).self != &*it) fail(keyOf("relocated"), "PoolMap value at %p was constructed at %p", (void*)&*it, (void*)(*it).self); }
+  static C* create(Rng& r) { return r.chance(1, 3) ? new C : new C((usize)r.range(1, 40)); } static It find(C& c, long k) { return c.find(RE(k)); }
+  static It add(C& c, const It& at, long k, long v) { It it = c.insert(at, RE(k)); (*it).e.id = v; return it; }
+  static void del(C& c, const It& it, int h, long k) { if (h == 0) c.remove(it); else if (h == 1) c.remove(RE(k)); else if (h == 2) c.removeFront(); else if (h == 3) c.removeBack(); else { It x = it; c.remove(*x); } } };
+#undef HOW1
+
 template <class It> struct Rec { long k, v; const void* ka; const void* va; It it; long born; };
 
 // ------------------------------------------------------------------------------------------------ world
 template <class Tr> struct World {
   typedef typename Tr::C C; typedef typename Tr::It It; typedef Rec<It> R;
   C* c[2]; Vec<R> m[2]; Rng& r; long nextId; int universe; long opNo; bool sweepNow, youngBias, wipeNow; size_t maxPop; u64 fp; long removals, swaps;
-  World(Rng& rr) : r(rr), nextId(1000), opNo(0), sweepNow(false), youngBias(false), wipeNow(false), maxPop(0), fp(0), removals(0), swaps(0) { c[0] = c[1] = 0; }
+  struct Nested { int what, ci; long k, v; It at, other, result; } nest;   // mode reentrant: the operation an element constructor/destructor performs on its own container
+  long nestedFired;
+  World(Rng& rr) : r(rr), nextId(1000), opNo(0), sweepNow(false), youngBias(false), wipeNow(false), maxPop(0), fp(0), removals(0), swaps(0), nestedFired(0) { c[0] = c[1] = 0; nest.what = 0; }
   long key() { return (long)r.below((u64)universe); }
   long fresh() { return nextId++; }
+  // a key for a new entry of container ci: sequences take a fresh id, unique-key tables a key that is not stored (and not `avoid`), MultiMap any key
+  long newKey(int ci, long avoid) {
+    if ((int)Tr::ORDER == (int)SEQ) return fresh();
+    for (int t = 0; t < 60; ++t) { long k = key(); if (k == avoid) continue; if ((int)Tr::ORDER == (int)MULTI && r.chance(1, 2)) return k;
+      bool present = false; for (size_t x = 0; x < m[ci].n && !present; ++x) present = m[ci][x].k == k; if (!present) return k; }
+    return 1000000 + fresh();
+  }
+  // enter a new entry into the ledger at the position its successor's stored iterator gives; false: the successor is not (yet) in the ledger
+  bool place(int ci, It it, long k, long v) {
+    It nx = it; ++nx; size_t pos = m[ci].n; if (nx != c[ci]->end()) { pos = indexOfIt(ci, nx); if (pos == m[ci].n) return false; }
+    added(ci, pos, it, k, v); return true;
+  }
   void op(const char* cx, const char* fmt, ...) __attribute__((format(printf, 3, 4))) {
     setctx(cx); char tmp[300]; va_list ap; va_start(ap, fmt); vsnprintf(tmp, sizeof tmp, fmt, ap); va_end(ap);
     if (hist.n > 600000) { hist.clear(); hist.add("# (older operations dropped; replay by seed and case number)\n"); }
@@ -156,6 +277,14 @@ template <class Tr> struct World {
 };
 
 // find(key) through the public API must lead to the stored iterator
+// (primary template: the traits of mode reentrant, which bring their own find; the seven plain traits are specialised below)
+template <class Tr> void World<Tr>::lookup(int ci, size_t idx) {
+  if (!Tr::FIND) return;
+  R& rec = m[ci][idx]; It f = Tr::find(*c[ci], rec.k);
+  if ((int)Tr::ORDER == (int)MULTI) { size_t at = indexOfIt(ci, f); if (at == m[ci].n || m[ci][at].k != rec.k) fail(keyOf("lookup"), "find(%ld) returns an iterator that designates no tracked entry with that key", rec.k); }
+  else if (f != rec.it) fail(keyOf("lookup"), "find(%ld) does not return the stored iterator", rec.k);
+  ++g_lookups;
+}
 template <> void World<TList>::lookup(int ci, size_t idx) { if (opNo % 8) return; R& rec = m[ci][idx]; size_t first = 0; while (m[ci][first].k != rec.k) ++first;   // bulk insertions can store equal ids: find returns the first
   It f = c[ci]->find(Elem(rec.k)); if (f != m[ci][first].it) fail(keyOf("lookup"), "find(%ld) does not return the stored iterator of the first element with that id", rec.k); ++g_lookups; }
 template <> void World<TMap>::lookup(int ci, size_t idx) { R& rec = m[ci][idx]; It f = c[ci]->find(Elem(rec.k)); if (f != rec.it) fail(keyOf("lookup"), "find(%ld) does not return the stored iterator", rec.k); ++g_lookups; }
@@ -386,39 +515,119 @@ static void stepPoolList(World<TPoolList>& w, bool grow) {
   if (n) { size_t idx = r.below(n); w.op("PoolList.revisit", "c%d: revisit @%lu", i, (unsigned long)idx); w.afterOp(i, idx, false, cp); }
 }
 
+
+// ------------------------------------------------------------------------------------------------ mode reentrant: histories with nested operations
+// the nested operation itself: runs inside the library call, from the destructor / copy constructor that consumed the arm; the ledger is updated by the caller afterwards
+template <class Tr> static void nestedOp(void* arg) {
+  World<Tr>& w = *(World<Tr>*)arg; typename World<Tr>::Nested& p = w.nest; typename Tr::C& a = *w.c[p.ci];
+  if (p.what == 3) a.remove(p.other); else p.result = Tr::add(a, p.at, p.k, p.v);
+}
+template <class Tr> static void stepR(World<Tr>& w, bool grow) {
+  typedef typename Tr::C C; typedef typename Tr::It It; typedef typename World<Tr>::R R; Rng& r = w.r; int i = (int)r.below(2), o = 1 - i; C& a = *w.c[i]; Vec<R>& m = w.m[i]; size_t n = m.n; long cp = ElemReg::copyCount();
+  static char cx[160]; typename World<Tr>::Nested& p = w.nest; p.ci = i;
+  if (w.wipeNow) { snprintf(cx, sizeof cx, "%s.clear/other-container", Tr::name()); w.op(cx, "c%d.clear()", o); w.c[o]->clear(); while (w.m[o].n) w.dropped(o, w.m[o].n - 1); w.sweepNow = true; w.afterOp(i, 0, false, cp); return; }
+  int kind = (int)r.below(1000);
+  if (kind < 600 && (grow || n == 0)) {   // insertion of a new key; in HashMap / HashSet every other time a copy constructor of the new entry inserts a second new key
+    long v = w.fresh(), k = w.newKey(i, -1); size_t pos = r.chance(1, 3) ? n : r.below(n + 1); It at = pos < n ? m[pos].it : a.end();
+    // Constructor re-entrancy is NOT armed (kArmCopyCtor = 0): the property does not promise it and five of the seven containers of the unchanged library
+    // (List, Map, MultiMap, PoolMap, PoolList) construct in the head node of the free list before popping it, exactly what seeded change C05-B4 makes
+    // HashMap do. Flagging it for HashMap/HashSet only would raise an alarm on code where the property holds. The machinery is kept for experiments.
+    enum { kArmCopyCtor = 0 };
+    bool nested = kArmCopyCtor && (int)Tr::COPIES > 0 && r.chance(1, 2);
+    if (!nested) { snprintf(cx, sizeof cx, "%s.insert", Tr::name()); w.op(cx, "c%d.insert(@%lu,%ld,%ld)", i, (unsigned long)pos, k, v);
+      It it = Tr::add(a, at, k, v); if (!w.place(i, it, k, v)) fail(keyOf("iterator"), "the successor of the new entry (%ld,%ld) is not designated by any stored iterator", k, v);
+      w.afterOp(i, pos, true, cp); return; }
+    int which = 1 + (int)r.below((u64)Tr::COPIES); size_t j = r.below(n + 1); p.what = 1; p.k = w.newKey(i, k); p.v = w.fresh(); p.at = j < n ? m[j].it : a.end();
+    snprintf(cx, sizeof cx, "%s.insert/copy-constructor-inserts", Tr::name());
+    w.op(cx, "c%d.insert(@%lu,%ld,%ld) [copy construction #%d of the new entry performs: c%d.insert(@%lu,%ld,%ld)]", i, (unsigned long)pos, k, v, which, i, (unsigned long)j, p.k, p.v);
+    arm(ARM_COPY, which, nestedOp<Tr>, &w); It it = Tr::add(a, at, k, v); bool fired = disarm();
+    if (fired) { ++w.nestedFired; cnt("nested_ops_from_copy_constructor"); cnt("nested_insertions"); setItem("reentrant_classes", cx);
+      // both entries are stored now; the one whose successor is already in the ledger goes in first
+      if (w.place(i, it, k, v)) { if (!w.place(i, p.result, p.k, p.v)) fail(keyOf("iterator"), "the successor of the entry (%ld,%ld) stored by the nested insertion is not designated by any stored iterator", p.k, p.v); }
+      else if (!w.place(i, p.result, p.k, p.v) || !w.place(i, it, k, v)) fail(keyOf("iterator"), "the successors of the new entry (%ld,%ld) and of the entry (%ld,%ld) stored by the nested insertion are not designated by stored iterators", k, v, p.k, p.v); }
+    else { cnt("nested_ops_not_performed"); if (!w.place(i, it, k, v)) fail(keyOf("iterator"), "the successor of the new entry (%ld,%ld) is not designated by any stored iterator", k, v); }
+    w.sweepNow = true; w.afterOp(i, pos, true, cp); return; }
+  if (kind < 600) { if (!n) return;   // removal through the recorded iterator; three times out of four a destructor of the dying entry works on the container
+    size_t idx = w.pickVictim(i); int how = (int)r.below((u64)Tr::HOWS); if (how == 2) idx = 0; if (how == 3) idx = n - 1; long k = m[idx].k;
+    if ((int)Tr::ORDER == (int)MULTI && how == 1) how = 0;   // MultiMap::remove(key) may take any entry of a run of equal keys
+    int what = (int)r.below(4); if (what == 3 && n < 2) what = 1;
+    if (what == 0) { snprintf(cx, sizeof cx, "%s.%s", Tr::name(), Tr::how(how)); w.op(cx, "c%d.remove(@%lu key %ld)", i, (unsigned long)idx, k);
+      Tr::del(a, m[idx].it, how, k);
+      w.dropped(i, idx); w.afterOp(i, idx ? idx - 1 : 0, false, cp); return; }
+    int which = 1 + (int)r.below((u64)Tr::PARTS); size_t j = r.below(n + 1 - (what == 3 ? 2 : 0)); p.what = what;
+    if (what == 3) { if (j >= idx) ++j; p.other = m[j].it;   // any entry but the dying one
+      snprintf(cx, sizeof cx, "%s.%s/destructor-removes-other", Tr::name(), Tr::how(how));
+      w.op(cx, "c%d.remove(@%lu key %ld) [destructor #%d of the dying entry performs: c%d.remove(@%lu key %ld)]", i, (unsigned long)idx, k, which, i, (unsigned long)j, m[j].k); }
+    else { if (j == idx) j = n; p.at = j < n ? m[j].it : a.end(); p.k = what == 2 ? k : w.newKey(i, k); p.v = w.fresh();   // anywhere but in front of the dying entry
+      snprintf(cx, sizeof cx, "%s.%s/%s", Tr::name(), Tr::how(how), what == 2 ? "destructor-reinserts-key" : "destructor-inserts");
+      w.op(cx, "c%d.remove(@%lu key %ld) [destructor #%d of the dying entry performs: c%d.insert(@%lu,%ld,%ld)]", i, (unsigned long)idx, k, which, i, (unsigned long)j, p.k, p.v); }
+    const char* lo = (const char*)m[idx].ka; const char* hi = lo + sizeof(typename Tr::KT);
+    if (m[idx].va) { const char* vl = (const char*)m[idx].va; const char* vh_ = vl + sizeof(typename Tr::VT); if (vl < lo) lo = vl; if (vh_ > hi) hi = vh_; }
+    arm(ARM_DTOR, which, nestedOp<Tr>, &w, lo, hi); Tr::del(a, m[idx].it, how, k); bool fired = disarm();
+    if (!fired) { cnt("nested_ops_not_performed"); w.dropped(i, idx); }
+    else { ++w.nestedFired; cnt("nested_ops_from_destructor"); setItem("reentrant_classes", cx);
+      if (what == 3) { cnt("nested_removals"); if (j > idx) { w.dropped(i, j); w.dropped(i, idx); } else { w.dropped(i, idx); w.dropped(i, j); } }
+      else { cnt(what == 2 ? "nested_reinsertions_of_dying_key" : "nested_insertions"); w.dropped(i, idx);
+        if (!w.place(i, p.result, p.k, p.v)) fail(keyOf("iterator"), "the successor of the entry (%ld,%ld) stored by the nested insertion is not designated by any stored iterator", p.k, p.v); } }
+    w.sweepNow = true; w.afterOp(i, idx ? idx - 1 : 0, what != 3, cp); return; }
+  if (kind < 640) { if constexpr ((bool)Tr::SWAP) { static char cs[2][64]; snprintf(cs[0], 64, "%s.swap/arg=other", Tr::name()); snprintf(cs[1], 64, "%s.swap/arg=self", Tr::name()); opSwap(w, i, cs[0], cs[1]); w.afterOp(i, 0, false, cp); } return; }
+  if (n) { size_t idx = r.below(n); snprintf(cx, sizeof cx, "%s.revisit", Tr::name()); w.op(cx, "c%d: revisit @%lu", i, (unsigned long)idx); w.afterOp(i, idx, false, cp); }
+}
+
 // ------------------------------------------------------------------------------------------------ case loop
 static int g_lengthFactor = 1;
-template <class Tr> static void histories(void (*step)(World<Tr>&, bool), u64 modeConst) {
+static bool g_reentrant = false;
+template <class Tr> static void runCase(void (*step)(World<Tr>&, bool), u64 modeConst, long idx) {
   char dctx[64]; snprintf(dctx, sizeof dctx, "%s.destructor/end-of-case", Tr::name());
+  beginCase(idx);
+  Rng r(opts.seed, modeConst, (u64)idx);
+  ElemReg::reset();
+  World<Tr> w(r);
+  // mode reentrant: shorter histories on small populations (every removal sweeps both containers)
+  long nops = g_reentrant ? r.range(150, 900) : r.range(300, 3000) * g_lengthFactor;
+  long hiTarget = g_reentrant ? r.range(3, 40) : r.chance(1, 4) ? r.range(4, 30) : r.range(30, 300);
+  w.universe = (int)Tr::ORDER == (int)MULTI ? (int)r.range(2, (long)hiTarget / 2 + 3) : (int)(hiTarget + r.range(1, hiTarget + 8));   // unique-key tables need more keys than entries; MultiMap wants runs of equal keys
+  elemHashMode = r.chance(1, 2) ? 0 : (long)r.range(2, 4);
+  w.youngBias = r.chance(1, 2);
+  hist.addf("# %s history%s: nops=%ld population target=%ld universe=%d hashMode=%ld youngBias=%d\n", Tr::name(), g_reentrant ? " with re-entrant elements" : "", nops, hiTarget, w.universe, elemHashMode, (int)w.youngBias);
+  setctx("constructor"); w.c[0] = Tr::create(r); w.c[1] = Tr::create(r);
+  long target = hiTarget; bool grow = true;
+  for (long o = 0; o < nops; ++o) {
+    size_t pop = w.m[0].n + w.m[1].n;
+    if (grow && (long)pop >= target) { grow = false; target = r.chance(1, 3) ? 0 : r.range(0, hiTarget / 2); cnt("population_turns"); }
+    else if (!grow && (long)pop <= target) { grow = true; target = r.range(hiTarget / 2 + 1, hiTarget); cnt("population_turns"); }
+    w.wipeNow = r.below((u64)nops) < 4;   // about four times per history, whatever its length, one container is cleared / destroyed / assigned to: old entries of the other one live on
+    step(w, r.chance(3, 4) ? grow : !grow);
+  }
+  setctx(dctx); w.sweep(0); w.sweep(1);
+  hist.add("delete c0; delete c1\n"); delete w.c[0]; w.c[0] = 0; delete w.c[1]; w.c[1] = 0;
+  ElemReg::checkBalanced(dctx);
+  cnt("ops", w.opNo); statMax("max_population", (long)w.maxPop);
+  if (idx % 193 == 0) sample("%.1000s", hist.c());
+  if (g_reentrant) { cnt("reentrant_histories"); endCase(mix(w.fp, (u64)w.maxPop), w.nestedFired >= 4); }
+  else endCase(mix(w.fp, (u64)w.maxPop), w.maxPop >= 8 && w.removals >= 8);
+}
+static void flushCheckCounters() { cnt("address_checks", g_addrChecks); cnt("iterator_checks", g_iterChecks); cnt("lookups", g_lookups); cnt("full_sweeps", g_sweeps); cnt("entries_in_sweeps", g_sweepEntries); }
+template <class Tr> static void histories(void (*step)(World<Tr>&, bool), u64 modeConst) {
+  for (long idx = opts.start; idx < opts.start + opts.cases; ++idx) if (mine(idx)) runCase<Tr>(step, modeConst, idx);
+  flushCheckCounters();
+}
+// mode reentrant: case idx works on container type idx % 7
+static void reentrantHistories() {
+  g_reentrant = true;
   for (long idx = opts.start; idx < opts.start + opts.cases; ++idx) {
     if (!mine(idx)) continue;
-    beginCase(idx);
-    Rng r(opts.seed, modeConst, (u64)idx);
-    ElemReg::reset();
-    World<Tr> w(r);
-    long nops = r.range(300, 3000) * g_lengthFactor;
-    long hiTarget = r.chance(1, 4) ? r.range(4, 30) : r.range(30, 300);
-    w.universe = (int)Tr::ORDER == (int)MULTI ? (int)r.range(2, (long)hiTarget / 2 + 3) : (int)(hiTarget + r.range(1, hiTarget + 8));   // unique-key tables need more keys than entries; MultiMap wants runs of equal keys
-    elemHashMode = r.chance(1, 2) ? 0 : (long)r.range(2, 4);
-    w.youngBias = r.chance(1, 2);
-    hist.addf("# %s history: nops=%ld population target=%ld universe=%d hashMode=%ld youngBias=%d\n", Tr::name(), nops, hiTarget, w.universe, elemHashMode, (int)w.youngBias);
-    setctx("constructor"); w.c[0] = Tr::create(r); w.c[1] = Tr::create(r);
-    long target = hiTarget; bool grow = true;
-    for (long o = 0; o < nops; ++o) {
-      size_t pop = w.m[0].n + w.m[1].n;
-      if (grow && (long)pop >= target) { grow = false; target = r.chance(1, 3) ? 0 : r.range(0, hiTarget / 2); cnt("population_turns"); }
-      else if (!grow && (long)pop <= target) { grow = true; target = r.range(hiTarget / 2 + 1, hiTarget); cnt("population_turns"); }
-      w.wipeNow = r.below((u64)nops) < 4;   // about four times per history, whatever its length, one container is cleared / destroyed / assigned to: old entries of the other one live on
-      step(w, r.chance(3, 4) ? grow : !grow);
+    switch (idx % 7) {
+      case 0: runCase<TListR>(stepR<TListR>, 5201, idx); break;
+      case 1: runCase<TMapR>(stepR<TMapR>, 5202, idx); break;
+      case 2: runCase<TMultiMapR>(stepR<TMultiMapR>, 5203, idx); break;
+      case 3: runCase<THashMapR>(stepR<THashMapR>, 5204, idx); break;
+      case 4: runCase<THashSetR>(stepR<THashSetR>, 5205, idx); break;
+      case 5: runCase<TPoolListR>(stepR<TPoolListR>, 5206, idx); break;
+      default: runCase<TPoolMapR>(stepR<TPoolMapR>, 5207, idx); break;
     }
-    setctx(dctx); w.sweep(0); w.sweep(1);
-    hist.add("delete c0; delete c1\n"); delete w.c[0]; w.c[0] = 0; delete w.c[1]; w.c[1] = 0;
-    ElemReg::checkBalanced(dctx);
-    cnt("ops", w.opNo); statMax("max_population", (long)w.maxPop);
-    if (idx % 193 == 0) sample("%.1000s", hist.c());
-    endCase(mix(w.fp, (u64)w.maxPop), w.maxPop >= 8 && w.removals >= 8);
   }
-  cnt("address_checks", g_addrChecks); cnt("iterator_checks", g_iterChecks); cnt("lookups", g_lookups); cnt("full_sweeps", g_sweeps); cnt("entries_in_sweeps", g_sweepEntries);
+  flushCheckCounters();
 }
 
 int main(int argc, char** argv) {
@@ -434,6 +643,7 @@ int main(int argc, char** argv) {
   else if (!strcmp(m, "hashset")) histories<THashSet>(stepHashSet, 5005 + lc);
   else if (!strcmp(m, "poollist")) histories<TPoolList>(stepPoolList, 5006 + lc);
   else if (!strcmp(m, "poolmap")) histories<TPoolMap>(stepPoolMap, 5007 + lc);
+  else if (!strcmp(m, "reentrant")) reentrantHistories();
   else harnessBug("unknown mode %s", opts.mode);
   leakCheck("containers/leak");
   finish();
